@@ -33,16 +33,101 @@ def oracle(c, out):
                 return ("loc-rib-content", "%s: unexpected %s missing %s" % (pf, sorted(extra), sorted(missing)))
             if got and o.get("best", {}).get(pf) != [0]:
                 return ("best-flag", "%s: best flags at %s, the best path is the first one" % (pf, o.get("best", {}).get(pf)))
+        # table summaries and lookups agree with the content
+        sm = o.get("summary")
+        if sm:
+            nd = sum(1 for v in want.values() if v)
+            np_ = sum(len(v) for v in want.values())
+            if sm.get("global") != [nd, np_]:
+                return ("table-summary", "GetTable(global) reports destinations/paths %s, the content has %d/%d" % (sm.get("global"), nd, np_))
+            for name, sp in spec.peers.items():
+                if name in sm and sp.up:
+                    adj = spec.exp_adjin(name)
+                    rc, ac = spec.exp_counters(name)
+                    if sm[name] != [len(adj), rc, ac]:
+                        return ("table-summary", "GetTable(adj-in %s) reports destinations/paths/accepted %s, the content has %s" % (name, sm[name], [len(adj), rc, ac]))
+        lk = o.get("lookup")
+        if lk:
+            import ipaddress
+            have = {pf: len(v) for pf, v in want.items() if v}
+            for (kind, q), got in lk.items():
+                qn = ipaddress.ip_network(q)
+                exp = []
+                for pf, n in have.items():
+                    pn = ipaddress.ip_network(pf)
+                    if (kind == "exact" and pn == qn) or (kind == "longer" and pn.subnet_of(qn)) or (kind == "shorter" and qn.subnet_of(pn)):
+                        exp.append("%s=%d" % (pf, n))
+                if sorted(exp) != [str(x) for x in got]:
+                    return ("prefix-lookup", "%s lookup of %s returns %s, the content gives %s" % (kind, q, got, sorted(exp)))
         return None
     return spkcommon.walk(c, out, visit)
 
 
+# ---- ADD-PATH receive (several path identifiers per source), IPv6 unicast, i.e. MP_REACH / MP_UNREACH: outside the model
+P6 = ["2001:db8:1::/48", "2001:db8:2::/48"]
+
+
+def gen_ap6(rng):
+    ev = []
+    for _ in range(rng.choice([4, 8, 14])):
+        r = rng.random()
+        if r < 0.55:
+            ev.append(("a", rng.choice(P6), rng.choice([1, 2, 3])))
+        elif r < 0.9:
+            ev.append(("w", rng.choice(P6), rng.choice([1, 2, 3])))
+        else:
+            ev.append(("obs",))
+    ev.append(("obs",))
+    return {"events": ev}
+
+
+def ap6_line(c):
+    steps = ["(up a v6 ap6)", "(up b v6)"]
+    for e in c["events"]:
+        steps.append("(obs)" if e[0] == "obs" else "(upd6 a (%s %s %d))" % e)
+    return "(sim (global 65000 1.1.1.1 sync) (peers (a 10.0.0.1 65001 v6 aprecv6) (b 10.0.0.2 65002 v6)) (steps %s))" % " ".join(steps)
+
+
+def ap6_oracle(c, out):
+    r = simlib.split_output(out)
+    if r is None:
+        return ("harness-error", "the scenario did not complete: " + out[:300])
+    obs = r[0]
+    held = set()
+    i = 0
+    items = simlib.parse_sx(out[out.index("ok") + 2:])
+    raw = [it for it in items if it and it[0] == "obs"]
+    for e in c["events"]:
+        if e[0] == "a":
+            held.add((e[1], e[2]))
+        elif e[0] == "w":
+            held.discard((e[1], e[2]))
+        else:
+            got = set()
+            for it in raw[i][1:]:
+                if it[0] == "rib6":
+                    for d in it[1:]:
+                        for p in d[1:]:
+                            if p[0] == "10.0.0.1":
+                                got.add((d[0], int(p[2])))
+            i += 1
+            if got != held:
+                return ("addpath-rib-content", "the Loc-RIB holds (prefix, path-id) %s of the peer; announced and not withdrawn: %s" % (sorted(got), sorted(held)))
+    return None
+
+
+def run_ap6(ctx, proof):
+    n = ctx.scale(500, 10000)
+    cases = [gen_ap6(ctx.rng) for _ in range(n)]
+    return spkcommon.oracle_only(ctx, proof, cases, ap6_line, ap6_oracle, "ADD-PATH receive over MP_REACH/MP_UNREACH (IPv6 unicast): Loc-RIB = announced and not withdrawn (prefix, path-id) pairs")
+
+
 def run(ctx):
     return spkcommon.run(ctx, "C02", oracle, "handleUpdate/propagateUpdate/dropAdjRIBIn/Calculate vs Speaker.Model.step",
-                         ["one path-id per source (no ADD-PATH receive) and IPv4 unicast only; no import policy",
-                          "table summaries, longer/shorter lookups and the best-path watcher stream are not modelled",
+                         ["the model has one path-id per source and IPv4 unicast only; ADD-PATH receive is exercised over IPv6 unicast (MP_REACH / MP_UNREACH) by an oracle-only scenario family; no import policy",
+                          "table summaries (GetTable of the global table and of every Adj-RIB-In) and exact / longer / shorter lookups are compared with the content by the direct oracle at every observation; the best-path watcher stream is not checked",
                           "events are applied one at a time (quiescent speaker between events)"],
-                         fields=("adjin", "counters", "rib"))
+                         fields=("adjin", "counters", "rib"), extra=[run_ap6])
 
 
 def replay(ctx, path):
